@@ -37,7 +37,11 @@ class Link(Edge):
 
         self.user_libs = libs
         forward_opts = opts.ForwardOptions.recurse(self.user_libs)
-        self.libs = self.user_libs + forward_opts.libs
+        # Keep the *last* occurrence of each library so that every library
+        # comes before the libraries it depends on (as static linking needs).
+        self.libs = list(reversed(uniques(reversed(
+            self.user_libs + forward_opts.libs
+        ))))
 
         self.user_packages = packages
         self.packages = self.user_packages + forward_opts.packages
